@@ -16,3 +16,6 @@ Lemma fact_clean_shape : fact_clean_loads_then_lists_then_checks_tag && fact_loa
 Proof. reflexivity. Qed.
 Lemma fact_visibility : fact_load_skips_foreign_tags && fact_unreadable_data_is_none = true.
 Proof. reflexivity. Qed.
+Lemma fact_loader_complete :
+  fact_load_aborts_on_corrupted_snapshot && fact_load_fails_when_a_listed_snapshot_cannot_be_downloaded = true.
+Proof. reflexivity. Qed.
